@@ -27,6 +27,8 @@
 //!   sz  register_size()                      fm  format_register(name) (P if it panicked; B-relative like ga)
 //!   mg  MinidumpContext::get_register(name) with the case's validity: value / B / N / P
 //!   mga MinidumpContext::get_register_always(name) after the set: value / B / P
+//!   g0 / sp0 / ip0  raw values BEFORE the set: get_register_always(name) (P if it panicked), get_stack_pointer,
+//!            get_instruction_pointer (the model computes them from the byte layout the translator derives from format.rs)
 //!   sa / ia  1 iff get_stack_pointer / get_instruction_pointer equals get_register_always(<sp / ip register name>)
 //!            widened to u64, both before and after the set
 //!   | RG=<T::REGISTERS> | spm=<memoize(sp name)> | ipm=<memoize(ip name)> | sm=<memoize of each validity member>
@@ -145,7 +147,7 @@ where
     let ia = ia_before && Some(ip) == named(&ctx, ctx.instruction_pointer_register_name());
 
     let common = format!(
-        "mz={};st={};ga={};gA={};gr={};iv={};ch={};sp={};ip={};spn={};ipn={};rn={};vn={};cr={};cv={};sz={};fm={};mg={};mga={};sa={};ia={}",
+        "mz={};st={};ga={};gA={};gr={};iv={};ch={};sp={};ip={};spn={};ipn={};rn={};vn={};cr={};cv={};sz={};fm={};mg={};mga={};g0={};sp0={};ip0={};sa={};ia={}",
         mz.unwrap_or("N"),
         st as u8,
         show(ga, before_named),
@@ -165,6 +167,9 @@ where
         fm,
         opt_show(mg),
         show(guard(|| mdc.get_register_always(name)), before_named),
+        before_named.map(|x| x.to_string()).unwrap_or_else(|| "P".into()),
+        before_sp,
+        before_ip,
         sa as u8,
         ia as u8,
     );
